@@ -31,6 +31,29 @@ SIGNIFICANT = list('*_`[]()>-#<&\\|~!:"\'+=.1 \n') + ['    ', '\n\n', '> ', '- '
 LETTERS = list('abcxyz') + ['é', 'ß', '中', 'Ω', ' ', '—', '“']
 
 
+# constructs outside the CommonMark corpus (GFM tables, extension tokens) and shapes the corpus has few of
+EXTRA = [
+    '| a | b |\n|---|:-:|\n| 1 | 2 |\n| 3 |\n',
+    'h1 | h2 | h3\n--- | --- | ---\nx | y\n',
+    'text\n\n> quoted\n>\n> | a | b |\n> | - | - |\n> | 1 | 2 |\n> | 3 |\n',
+    '- item\n\n  | x | y |\n  | :- | -: |\n  | 3 | 4 |\n  | 5 |\n- next\n',
+    '1. one\n2. > nested\n   >\n   > | c | d |\n   > | - | - |\n   > | 7 |\n',
+    '| `a\\|b` | *c* |\n|-|-|\n| [l](/u) | ![i](/s) |\n',
+    'para\n| a |\n|---|\n| b |\nafter\n',
+    '<div>\n*raw*\n</div>\n\n<pre>\na\n\nb\n</pre>\n\n<!-- c\n\nd -->\ntext\n',
+    '> <div>\n> x\n> </div>\n\n- <span>y</span>\n  z\n',
+    '~~strike~~ and ~~two\nlines~~ <b>raw</b> <http://auto.link> <me@example.com>\n',
+    'a  \nb\\\nc\n\n    code  \n\n\ttab code\n',
+    '1) a\n2) b\n\n10. c\n11. d\n\n- [x] task\n- [ ] task\n',
+    '[ref]: /url "title"\n[ref2]: <a b> (t)\n\n[ref] ![ref2][] [x][ref]\n',
+    '# h1 #\n## h2\nsetext\n===\nsetext2\n---\n###### h6 ######\n',
+    '$a_b$ and $$x^2$$ [[wiki|page]] {{macro}}\n{{/macro}}\n',
+    '- a\n  - b\n    - c\n      - d\n\n        e\n  f\n',
+    '> a\n> > b\n> > > c\nlazy\n> d\n',
+    '```py title\ncode\n```\n~~~\n~~~\n    indented\n\n    more\n',
+]
+
+
 def mutate(rng, text, k=None):
     """Seeded mutation: insert / delete / replace / duplicate a line / swap lines."""
     s = text
@@ -75,8 +98,8 @@ def random_text(rng, maxlen=60, alphabet=None):
 
 def texts(rng, n, kinds=('corpus', 'mutant', 'splice', 'random'), no_tabs=False):
     """A reproducible stream of n texts mixing the kinds given."""
-    cp = [e['markdown'] for e in corpus()]
-    out = []
+    cp = [e['markdown'] for e in corpus()] + EXTRA * 3
+    out = list(EXTRA) if n >= 200 else []
     i = 0
     while len(out) < n:
         kind = kinds[i % len(kinds)]
